@@ -70,6 +70,9 @@ type recorder struct {
 	// deadCtx: contexts derived by stages (setCtx) are cancelled ones (server chains only: the client's
 	// transport legitimately refuses to send with a cancelled context)
 	deadCtx bool
+	// deadRoot: the context handed to HandleRequest is already cancelled (the peer has gone away) and stages that derive a
+	// context detach it (context.WithoutCancel): the chain must run exactly as with a live context
+	deadRoot bool
 }
 
 func (r *recorder) emit(u int, e Event) {
@@ -228,6 +231,9 @@ func interp[M any, R any](rec *recorder, s int, prog []string, ctx context.Conte
 		case "setMsg":
 			msg = replace(msg, u, s)
 		case "setCtx":
+			if rec.deadRoot {
+				ctx = context.WithoutCancel(ctx)
+			}
 			ctx = context.WithValue(ctx, ctxTok{}, s)
 			if rec.deadCtx { // variant: the derived context is already cancelled; the chain itself must not care
 				c, cancel := context.WithCancel(ctx)
@@ -518,7 +524,13 @@ func (s *srvSys) run(u int) (k string, f int) {
 	if s.critical {
 		msg.BatchItem[0].MessageExtension = &kmip.MessageExtension{VendorIdentification: "verif", CriticalityIndicator: true}
 	}
-	resp := s.ex.HandleRequest(context.Background(), msg)
+	root := context.Background()
+	if deadRootCtx {
+		c, cancel := context.WithCancel(root)
+		cancel()
+		root = c
+	}
+	resp := s.ex.HandleRequest(root, msg)
 	return resOfMsg(resp, nil)
 }
 func (s *srvSys) close() {}
@@ -565,15 +577,20 @@ var kinds = []string{"client", "srvmsg", "srvitem"}
 type kindVariant struct {
 	kind string
 	dead bool
+	root bool
 }
+
+// deadRootCtx: the next server-chain run is handed a cancelled root context
+var deadRootCtx bool
 
 // every chain runs on the three real chains; chains that derive contexts additionally run on the two
 // server chains with derived contexts that are already cancelled
 func kindVariants(chain []string) []kindVariant {
-	kv := []kindVariant{{"client", false}, {"srvmsg", false}, {"srvitem", false}, {"srvmsg-late", false}, {"srvitem-late", false}, {"srvmsg-stop", false}, {"client-builtin", false}, {"srvitem-critical", false}, {"srvmsg-upgrade", false}, {"client-drop", false}, {"srvitem-discover", false}}
+	kv := []kindVariant{{kind: "client"}, {kind: "srvmsg"}, {kind: "srvitem"}, {kind: "srvmsg-late"}, {kind: "srvitem-late"}, {kind: "srvmsg-stop"}, {kind: "client-builtin"}, {kind: "srvitem-critical"}, {kind: "srvmsg-upgrade"}, {kind: "client-drop"}, {kind: "srvitem-discover"},
+		{kind: "srvmsg", root: true}, {kind: "srvitem", root: true}, {kind: "srvmsg-stop", root: true}}
 	for _, p := range chain {
 		if p == "newctx" || p == "thrice" {
-			return append(kv, kindVariant{"srvmsg", true}, kindVariant{"srvitem", true})
+			return append(kv, kindVariant{kind: "srvmsg", dead: true}, kindVariant{kind: "srvitem", dead: true})
 		}
 	}
 	return kv
@@ -673,7 +690,7 @@ func TestReplay(t *testing.T) {
 	for n, c := range cases {
 		for _, kv := range kindVariants(c.Chain) {
 			kind := kv.kind
-			rec := &recorder{hist: map[int][]Event{}, slot: map[int]int{}, deadCtx: kv.dead}
+			rec := &recorder{hist: map[int][]Event{}, slot: map[int]int{}, deadCtx: kv.dead, deadRoot: kv.root}
 			sys, err := build(rec, kind, c.Chain)
 			if err != nil {
 				t.Fatal(err)
@@ -683,8 +700,9 @@ func TestReplay(t *testing.T) {
 				u++
 				runs++
 				upgradeVersion = kind == "srvmsg-upgrade"
+				deadRootCtx = kv.root
 				k, f := sys.run(u)
-				upgradeVersion = false
+				upgradeVersion, deadRootCtx = false, false
 				rec.mu.Lock()
 				got := rec.hist[u]
 				rec.mu.Unlock()
@@ -697,7 +715,7 @@ func TestReplay(t *testing.T) {
 				}
 				if !eventsEqual(kind, got, c.Hist) || k != expK || f != expF {
 					mism++
-					out.Emit(map[string]any{"case": n, "kind": kind, "rep": rep, "chain": c.Chain, "deadctx": kv.dead,
+					out.Emit(map[string]any{"case": n, "kind": kind, "rep": rep, "chain": c.Chain, "deadctx": kv.dead, "deadroot": kv.root,
 						"expect": map[string]any{"hist": c.Hist, "final": c.Final},
 						"got":    map[string]any{"hist": got, "final": []any{k, f}}})
 					break
